@@ -72,7 +72,7 @@ def setup_unit(reg, contract, ex):
         closure = Frame(fi.outer, cenv)
     else:
         for n, typ in contract.params.items():
-            if n not in env and n.startswith("$"):
+            if n not in env and n.startswith(("$", "forall_")):
                 env[n] = reg.fresh(ex, state, typ, n, path=n)
     fr = Frame(fi, dict(env), closure=closure)
     state.frames.append(fr)
@@ -106,7 +106,7 @@ def verify_unit(reg, contract, tier="quick"):
         res.covers.append(("requires-satisfiable", list(state.pc)))
         if contract.ghost_entry:
             run_ghost_code(ex, state, contract.ghost_entry)
-        outs = ex.exec_block(state, fi.node.body)
+        outs = ex.exec_block(state, fi.node.body, merge_last=not contract.split_exits)
         if contract.merge_returns:
             outs = merge_return_outcomes(ex, outs)
         n_normal = 0
@@ -518,7 +518,7 @@ def _solve_one(ob, timeout_ms, use_cvc5=True, ex=None):
         out = {"r": str(r)}
         if r == z3.sat and ex is not None:
             try:
-                out["inputs"] = model_inputs(ex, ex.unit_pre, s.model())
+                out["inputs"] = model_inputs(ex, ex.unit_pre, s.model(), terms)
             except Exception as e:
                 out["inputs"] = {"<error>": repr(e)}
         if r == z3.unknown:
@@ -561,7 +561,7 @@ def _solve_one(ob, timeout_ms, use_cvc5=True, ex=None):
                 o2 = {"r": str(r)}
                 if r == z3.sat:
                     try:
-                        o2["inputs"] = model_inputs(ex, ex.unit_pre, s2.model())
+                        o2["inputs"] = model_inputs(ex, ex.unit_pre, s2.model(), list(ob.pc) + [ob.goal])
                     except Exception as e:
                         o2["inputs"] = {"<error>": repr(e)}
                 return o2
@@ -600,9 +600,28 @@ def check_cover(pc, timeout_ms=3000):
     return guarded_check(s, timeout_ms)
 
 
-def model_inputs(ex, pre, model):
+def _literals(terms, limit=200000):
+    """string / integer literals occurring in the obligation (candidate table keys for model read-back)"""
+    seen, lits, stack = set(), {}, list(terms or [])
+    while stack and len(seen) < limit:
+        e = stack.pop()
+        i = e.get_id()
+        if i in seen:
+            continue
+        seen.add(i)
+        if z3.is_string_value(e) or z3.is_int_value(e):
+            lits[str(e)] = e
+        elif z3.is_app(e):
+            stack.extend(e.children())
+        elif z3.is_quantifier(e):
+            stack.append(e.body())
+    return list(lits.values())
+
+
+def model_inputs(ex, pre, model, terms=None):
     """Evaluate the unit's input symbols (parameters, fields of declared objects) in a counter-model."""
     out = {}
+    lits = _literals(terms)
 
     def conv(v):
         if isinstance(v, (VInt,)):
@@ -649,7 +668,11 @@ def model_inputs(ex, pre, model):
                 if o.items is not None:
                     return [conv(x) for x in o.items]
                 r = model.eval(o.seq, model_completion=True)
-                return {"list": str(r)}
+                return {"list": seq_to_list(r, model)}
+            if o.kind == "dict" and o.d is not None:
+                return {"dict": {str(k): conv(x) for k, x in o.d.items()}}
+            if o.kind == "dict" and o.sym is not None:
+                return {"dict": dict_entries(model, o.sym, lits)}
             if o.kind == "barray":
                 n = model.eval(o.n, model_completion=True)
                 nn = n.as_long() if z3.is_int_value(n) else 0
@@ -675,6 +698,44 @@ def model_inputs(ex, pre, model):
                 out[path + "." + fld] = conv(v)
             except Exception as e:
                 out[path + "." + fld] = "<err %s>" % e
+    return out
+
+
+def dict_entries(model, sym, lits=()):
+    """the entries of a symbolic table in a counter-model: candidate keys are the key-sorted constants of the model and
+    the key literals of the evaluated arrays; membership and value are then read off by evaluation"""
+    ks = sym["has"].sort().domain()
+    cands = {}
+
+    def walk(e, depth=0):
+        if depth > 40:
+            return
+        if z3.is_expr(e) and e.sort() == ks and (z3.is_string_value(e) or z3.is_int_value(e)):
+            cands[str(e)] = e
+        if z3.is_app(e):
+            for c in e.children():
+                walk(c, depth + 1)
+        elif z3.is_quantifier(e):
+            walk(e.body(), depth + 1)
+    for d in model.decls():
+        try:
+            if d.arity() == 0 and d.range() == ks:
+                walk(model[d])
+        except z3.Z3Exception:
+            pass
+    for e in lits:
+        walk(e)
+    for arr in (sym["has"], sym["val"]):
+        try:
+            walk(model.eval(arr, model_completion=True))
+        except z3.Z3Exception:
+            pass
+    out = {}
+    for k in cands.values():
+        if z3.is_true(model.eval(z3.Select(sym["has"], k), model_completion=True)):
+            v = model.eval(z3.Select(sym["val"], k), model_completion=True)
+            key = k.as_string() if z3.is_string_value(k) else k.as_long()
+            out[key] = v.as_long() if z3.is_int_value(v) else str(v)
     return out
 
 
